@@ -122,6 +122,15 @@ def build(kind, wshape):
     x = g.input('x', wshape)
     c = g.const('c', np.ones(wshape, np.float32))
     g.output(g.binary('ADD', x, c, 'y'))
+  elif kind in ('MUL_CONST', 'SUB_CONST'):
+    x = g.input('x', wshape)
+    c = g.const('c', np.ones(wshape, np.float32))
+    g.output(g.binary(kind[:3], x, c, 'y'))
+  elif kind == 'CONCAT_CONST':
+    # a constant operand of an op whose inputs take the OUTPUT's parameters
+    x = g.input('x', wshape)
+    c = g.const('c', np.ones(wshape, np.float32))
+    g.output(g.concat([x, c], 'y'))
   else:
     raise ValueError(kind)
   return mb.build()
@@ -181,6 +190,17 @@ def cases(tier):
       if tier == 'thorough':
         cs.append((kind, shp, 'SRQ16C', srq(16, 8, 'CHANNELWISE')))
   cs.append(('ADD_CONST', (1, 3), 'SRQ8C', srq(8, 8, 'CHANNELWISE')))
+  for kind in ('MUL_CONST', 'SUB_CONST', 'CONCAT_CONST'):
+    # the rule names the operator (with '*' the virtual INPUT op is quantized
+    # too and the pipeline compares two symbolic float32 scales for equality -
+    # a branch the bit-precise solver does not decide within the budget; the
+    # constant's treatment does not depend on it)
+    opn = {'MUL': 'MUL', 'SUB': 'SUB', 'CON': 'CONCATENATION'}[kind[:3]]
+    cs.append((kind, (1, 3), 'SRQ8C', [dict(srq(8, 8, 'CHANNELWISE')[0],
+                                            operation=opn)]))
+    if tier == 'thorough':
+      cs.append((kind, (1, 2), 'SRQ16C', [dict(srq(16, 8, 'CHANNELWISE')[0],
+                                               operation=opn)]))
   return cs
 
 
@@ -346,7 +366,36 @@ def check_constant(e, out, si, ti, resolved):
   # channel statistics (so that C17's round-trip lemma applies to them and the
   # decoded value is within half a step / one step of the original)
   tc = resolved.get('tc')
-  if tc is not None:
+  inh = resolved.get('inherits')
+  if tc is not None and inh is not None and out.get('qsvs') and \
+      inh in out['qsvs']:
+    # the constant takes ANOTHER tensor's parameters (inputs of an op whose
+    # inputs share the output's): the stored parameters are the spec
+    # parameters of that tensor's statistics; by the calibration contract
+    # (C09: statistics are moving averages of the true per-sample range, and
+    # that tensor contains this constant in every sample) the constant lies
+    # inside that range - assumed here, which is what makes C17's round-trip
+    # lemma applicable
+    omn, omx = out['qsvs'][inh]['min'].el[0], out['qsvs'][inh]['max'].el[0]
+    for xi in x.el:
+      e.assume(z3.And(z3.fpLEQ(omn, xi), z3.fpLEQ(xi, omx)), check=False)
+    zp_ref, sc_ref, zpf = spec.zp_scale(omn, omx, tc.num_bits, tc.symmetric,
+                                        True)
+    s_arr = q.scale[0] if isinstance(q.scale[0], SymArray) else \
+        SymArray.from_numpy(np.asarray(q.scale[0], np.float32))
+    e.check('C05.inherited_parameters_are_spec_parameters_of_their_source',
+            z3.And(nch == 1, symnp.astype(s_arr, np.float32).terms()[0]
+                   == sc_ref), info=[nm, inh, 'scale'])
+    if zpf is not None:
+      zdt = np.dtype(np.int8 if tc.num_bits <= 8 else np.int16)
+      zref = z3.SignExt(64 - zdt.itemsize * 8,
+                        B.Bits().cast(np.dtype(np.float32), zdt, zpf))
+      z_arr = q.zeroPoint[0] if isinstance(q.zeroPoint[0], SymArray) else \
+          SymArray.from_numpy(np.asarray(q.zeroPoint[0]))
+      e.check('C05.inherited_parameters_are_spec_parameters_of_their_source',
+              symnp.astype(z_arr, np.int64).terms()[0] == zref,
+              info=[nm, inh, 'zero point'])
+  elif tc is not None:
     shape_ = tuple(int(v) for v in t0.shape)
     idxa = np.arange(n).reshape(shape_) if shape_ else np.arange(1)
     for c in range(nch):
@@ -440,6 +489,9 @@ def _library_integers(out, name, n):
   return None
 
 
+SAME_AS_OUTPUT_OPS = (oracles.BO.CONCATENATION,)
+
+
 def make_harness(kind, wshape, recipe):
   mb = build(kind, wshape)
 
@@ -471,9 +523,13 @@ def make_harness(kind, wshape, recipe):
           is_bias = bidx is not None and k == bidx
           tc = cfg.weight_tensor_config if widx is not None else \
               cfg.activation_tensor_config
+          code = m0.operatorCodes[op.opcodeIndex].builtinCode
+          inherits = None
+          if code in SAME_AS_OUTPUT_OPS and len(op.outputs) == 1:
+            inherits = oracles.tname(sg.tensors[op.outputs[0]])
           check_constant(e, out, si, i, {
               'symmetric': True if is_bias or tc is None else tc.symmetric,
-              'tc': None if is_bias else tc})
+              'tc': None if is_bias else tc, 'inherits': inherits})
   return h
 
 
